@@ -872,3 +872,123 @@ def jar_check(path, want_alg=None):
         covered += 1
     facts["covered"] = covered
     return facts, probs
+
+
+# ---------------------------------------------------------------------------------------------------- APPX
+def zip_central(d):
+    """central directory as raw entries: returns dict(entries=[{name, raw, lfh_off, method, csize, usize}], cd_off, cd_size, eocd_off, z64 (offset of the
+    zip64 EOCD record or None), z64loc (offset of the locator or None))"""
+    e = d.rfind(b"PK\x05\x06")
+    if e < 0:
+        raise RefError("no end of central directory")
+    n16, cdsize, cdoff = struct.unpack_from("<HII", d, e + 10)
+    out = {"eocd_off": e, "z64": None, "z64loc": None}
+    count = n16
+    if d[e - 20:e - 16] == b"PK\x06\x07":
+        out["z64loc"] = e - 20
+        z = struct.unpack_from("<Q", d, e - 20 + 8)[0]
+        if d[z:z + 4] != b"PK\x06\x06":
+            raise RefError("zip64 locator does not point at a zip64 end record")
+        out["z64"] = z
+        count, cdsize, cdoff = struct.unpack_from("<QQQ", d, z + 32)
+    out["cd_off"], out["cd_size"] = cdoff, cdsize
+    p, entries = cdoff, []
+    for i in range(count):
+        if d[p:p + 4] != b"PK\x01\x02":
+            raise RefError("bad central directory entry %d" % i)
+        method, = struct.unpack_from("<H", d, p + 10)
+        csize, usize, nlen, xlen, clen = struct.unpack_from("<IIHHH", d, p + 20)
+        lfh = struct.unpack_from("<I", d, p + 42)[0]
+        name = d[p + 46:p + 46 + nlen]
+        extra = d[p + 46 + nlen:p + 46 + nlen + xlen]
+        q = 0
+        while q + 4 <= len(extra):
+            hid, hsz = struct.unpack_from("<HH", extra, q)
+            if hid == 1:
+                vals = extra[q + 4:q + 4 + hsz]
+                r = 0
+                if usize == 0xffffffff:
+                    usize = struct.unpack_from("<Q", vals, r)[0]
+                    r += 8
+                if csize == 0xffffffff:
+                    csize = struct.unpack_from("<Q", vals, r)[0]
+                    r += 8
+                if lfh == 0xffffffff:
+                    lfh = struct.unpack_from("<Q", vals, r)[0]
+            q += 4 + hsz
+        size = 46 + nlen + xlen + clen
+        entries.append({"name": name.decode("utf-8", "replace"), "raw": d[p:p + size], "lfh_off": lfh, "method": method, "csize": csize, "usize": usize})
+        p += size
+    if p != cdoff + cdsize:
+        raise RefError("central directory size does not match its entries")
+    out["entries"] = entries
+    return out
+
+
+def appx_reference(d, alg):
+    """APPX signature digests as the AppxSip computes them (documented by osslsigncode appx.c): returns (blob 'APPX'+'AXPC'..., facts)"""
+    c = zip_central(d)
+    if c["z64"] is None:
+        raise RefError("APPX packages carry a zip64 end of central directory record")
+    ents = c["entries"]
+    if not ents or ents[-1]["name"] != "AppxSignature.p7x":
+        raise RefError("AppxSignature.p7x is not the last entry")
+    sig_off = ents[-1]["lfh_off"]
+    z = zipfile.ZipFile(io.BytesIO(d))
+    axpc = H(alg, d[:sig_off])
+    cd2 = b"".join(e["raw"] for e in ents[:-1])
+    z64 = bytearray(d[c["z64"]:c["z64loc"]])
+    struct.pack_into("<QQQQ", z64, 24, len(ents) - 1, len(ents) - 1, len(cd2), sig_off)
+    loc = bytearray(d[c["z64loc"]:c["eocd_off"]])
+    struct.pack_into("<Q", loc, 8, sig_off + len(cd2))
+    eocd = bytearray(d[c["eocd_off"]:])
+    n1, n2, cs, co = struct.unpack_from("<HHII", eocd, 8)
+    if n1 != 0xffff:
+        struct.pack_into("<H", eocd, 8, n1 - 1)
+    if n2 != 0xffff:
+        struct.pack_into("<H", eocd, 10, n2 - 1)
+    if cs != 0xffffffff:
+        struct.pack_into("<I", eocd, 12, len(cd2))
+    if co != 0xffffffff:
+        struct.pack_into("<I", eocd, 16, sig_off)
+    axcd = H(alg, cd2, bytes(z64), bytes(loc), bytes(eocd))
+    blob = b"APPX" + b"AXPC" + axpc + b"AXCD" + axcd + b"AXCT" + H(alg, z.read("[Content_Types].xml")) + b"AXBM" + H(alg, z.read("AppxBlockMap.xml"))
+    names = [e["name"] for e in ents]
+    if "AppxMetadata/CodeIntegrity.cat" in names:
+        blob += b"AXCI" + H(alg, z.read("AppxMetadata/CodeIntegrity.cat"))
+    return blob, {"entries": len(ents), "sig_off": sig_off}
+
+
+def appx_blockmap_check(d):
+    """every File of AppxBlockMap.xml against the package: size, local-header size, SHA-2 hashes of the 64 KiB blocks"""
+    import re
+    from urllib.parse import unquote
+    z = zipfile.ZipFile(io.BytesIO(d))
+    bm = z.read("AppxBlockMap.xml").decode("utf-8")
+    m = re.search(r'HashMethod="[^"#]*#([a-z0-9]+)"', bm)
+    alg = m.group(1) if m else "sha256"
+    byname = {unquote(i.filename): i for i in z.infolist()}
+    probs, nblocks, listed = [], 0, set()
+    for fm in re.finditer(r'<File\b([^>]*?)(/>|>(.*?)</File>)', bm, flags=re.S):
+        attrs = dict(re.findall(r'(\w+)="([^"]*)"', fm.group(1)))
+        name = attrs.get("Name", "").replace("\\", "/").replace("&amp;", "&")
+        listed.add(name)
+        zi = byname.get(name)
+        if zi is None:
+            probs.append(("blockmap-unknown-file", "block map lists %r which is not in the package" % name))
+            continue
+        data = z.read(zi)
+        if int(attrs.get("Size", -1)) != len(data):
+            probs.append(("blockmap-size", "block map Size %s of %r, actual %d" % (attrs.get("Size"), name, len(data))))
+        nlen, xlen = struct.unpack_from("<HH", d, zi.header_offset + 26)
+        if int(attrs.get("LfhSize", -1)) != 30 + nlen + xlen:
+            probs.append(("blockmap-lfhsize", "block map LfhSize %s of %r, local header is %d bytes" % (attrs.get("LfhSize"), name, 30 + nlen + xlen)))
+        hashes = re.findall(r'<Block\b[^>]*Hash="([^"]+)"', fm.group(3) or "")
+        want = [base64.b64encode(H(alg, data[p:p + 65536])).decode() for p in range(0, len(data), 65536)]
+        nblocks += len(want)
+        if hashes != want:
+            probs.append(("blockmap-block-hash", "block hashes of %r differ from the %s of its 64 KiB blocks (%d listed, %d expected)" % (name, alg, len(hashes), len(want))))
+    for n in byname:
+        if n not in listed and not n.endswith("/") and n not in ("AppxBlockMap.xml", "AppxSignature.p7x", "[Content_Types].xml", "AppxMetadata/CodeIntegrity.cat"):
+            probs.append(("blockmap-missing-file", "package file %r is not in the block map" % n))
+    return probs, nblocks
